@@ -106,3 +106,110 @@ func (s *State) Canon(sc Scope) string {
 	sort.Strings(out)
 	return strings.Join(out, "\n")
 }
+
+// Protected computes the set of device objects outside Netspoc's scope
+// (C07), from the property's own definition: ACLs and object-groups that
+// are not reachable from a managed anchor and carry no generated-name tag,
+// ACLs bound at interfaces the target does not know, and everything such
+// objects reference. Keys are "acl:NAME" / "grp:NAME".
+func (s *State) Protected(sc Scope) map[string]bool {
+	reach := map[string]bool{}
+	var visitGroup func(string, map[string]bool)
+	visitGroup = func(n string, set map[string]bool) {
+		if set["grp:"+n] || s.Groups[n] == nil {
+			return
+		}
+		set["grp:"+n] = true
+		for _, m := range s.Groups[n].Members {
+			if g, ok := strings.CutPrefix(m, "group-object "); ok {
+				visitGroup(g, set)
+			}
+		}
+	}
+	visitACL := func(n string, set map[string]bool) {
+		if set["acl:"+n] || s.ACLs[n] == nil {
+			return
+		}
+		set["acl:"+n] = true
+		for _, a := range s.ACLs[n] {
+			for _, g := range []string{a.Src.Group, a.Dst.Group, a.ProtoGroup, a.SPort.Group, a.DPort.Group} {
+				if g != "" {
+					visitGroup(g, set)
+				}
+			}
+		}
+	}
+	for slot, acl := range s.Bind {
+		if slot.Dir == "global" || sc.Intfs[slot.Intf] {
+			visitACL(acl, reach)
+		}
+	}
+	for _, n := range s.Gen.managedACLs(s, sc) {
+		visitACL(n, reach)
+	}
+	prot := map[string]bool{}
+	for n := range s.ACLs {
+		if !reach["acl:"+n] && !strings.Contains(n, "-DRC-") {
+			visitACL(n, prot)
+		}
+	}
+	for n := range s.Groups {
+		if !reach["grp:"+n] && !strings.Contains(n, "-DRC-") {
+			visitGroup(n, prot)
+		}
+	}
+	for slot, acl := range s.Bind {
+		if slot.Dir != "global" && !sc.Intfs[slot.Intf] {
+			visitACL(acl, prot)
+		}
+	}
+	return prot
+}
+
+// ObjText is the textual content of a protected object.
+func (s *State) ObjText(key string) (string, bool) {
+	kind, name, _ := strings.Cut(key, ":")
+	switch kind {
+	case "acl":
+		l, ok := s.ACLs[name]
+		if !ok {
+			return "", false
+		}
+		var b strings.Builder
+		for _, a := range l {
+			b.WriteString(a.Key(true) + "\n")
+		}
+		return b.String(), true
+	case "grp":
+		g, ok := s.Groups[name]
+		if !ok {
+			return "", false
+		}
+		return g.Kind + "\n" + strings.Join(g.Members, "\n") + "\n", true
+	}
+	return "", false
+}
+
+// FrameText is the remaining protected content: bindings of unmanaged
+// interfaces, routes of unmanaged families, interface definitions and
+// unmodelled lines.
+func (s *State) FrameText(sc Scope) string {
+	var out []string
+	for slot, acl := range s.Bind {
+		if slot.Dir != "global" && !sc.Intfs[slot.Intf] {
+			out = append(out, "access-group "+acl+" "+slot.Dir+" interface "+slot.Intf)
+		}
+	}
+	for r := range s.Routes {
+		v6 := strings.HasPrefix(r, "ipv6 ")
+		if v6 && !sc.Route6 || !v6 && !sc.Route4 {
+			out = append(out, r)
+		}
+	}
+	sort.Strings(out)
+	for _, i := range s.Intfs {
+		out = append(out, "interface "+i.HW+" nameif "+i.Nameif+" "+strings.Join(i.Extra, ";"))
+	}
+	out = append(out, s.Opaque...)
+	return strings.Join(out, "\n")
+}
